@@ -232,6 +232,8 @@ func checkC12(c *Ctx) {
 	// ---- O6 the measuring device itself (shared with C16 O2/O3) --------------------------------------
 	c.checkCalcTransport("O6 calc-transport")
 	c.checkCalculateSize("O6 calculate-size")
+	// ---- O7 what is sized is what is emitted: shared tag slices are never appended to in place ------
+	c.checkSharedTagSlices("O7 shared-tags")
 }
 
 // cellOfAny: v is a load of a local cell (single- or multi-store).
@@ -624,4 +626,131 @@ func (c *Ctx) checkFreeBytes(rule string) {
 	}
 	c.check(okGuard, rule, key+":refuse", ctor.Pos(), "the constructor returns an error when freeBytes <= 0", "the constructor accepts a configuration whose free space is <= 0: every metric overflows the packet")
 	// the overflow test reads reporter.freeBytes (checked in O1 by construction: CHK is only recognised over that field)
+}
+
+// checkSharedTagSlices (C12 O7 / C13): tag slices handed out by convertTags live in the tag cache
+// and in every metric template built with the same tag set; a template's Tags likewise is shared
+// by everything that copies the template. Appending to such a slice (or storing into one of its
+// elements) writes into spare capacity that other goroutines size or emit concurrently: a bucket
+// metric is then sized with another histogram's bucket tags (undercharged), or emitted with them.
+// Rule: in package m3 every append base / element store target of type []MetricTag is private
+// (fresh from make or a pool, or the running result of appends onto such a slice).
+func (c *Ctx) checkSharedTagSlices(rule string) {
+	const pk = "m3"
+	conv := c.fn(pk, "reporter", "convertTags")
+	if conv == nil {
+		c.missing(rule, "m3.reporter.convertTags")
+		return
+	}
+	isTagSlice := func(t types.Type) bool {
+		sl, ok := t.Underlying().(*types.Slice)
+		if !ok {
+			return false
+		}
+		n, isN := sl.Elem().(*types.Named)
+		return isN && n.Obj().Name() == "MetricTag"
+	}
+	var shared func(v ssa.Value, depth int, seen map[ssa.Value]bool) string
+	shared = func(v ssa.Value, depth int, seen map[ssa.Value]bool) string {
+		v = canon(stripConv(v))
+		if v == nil || seen[v] || depth <= 0 {
+			return ""
+		}
+		seen[v] = true
+		switch x := v.(type) {
+		case *ssa.Parameter:
+			return "parameter " + x.Name() + " (the caller's slice)"
+		case *ssa.Phi:
+			for _, e := range x.Edges {
+				if r := shared(e, depth-1, seen); r != "" {
+					return r
+				}
+			}
+		case *ssa.Slice:
+			return shared(x.X, depth-1, seen)
+		case *ssa.UnOp:
+			if f, _ := loadedField(x); f != nil && isTagSlice(f.Type()) {
+				return "field " + f.Name() + " (shared by every copy of the metric / batch)"
+			}
+		case *ssa.Extract:
+			if call, ok := x.Tuple.(*ssa.Call); ok {
+				if f := staticCallee(call); f != nil && f.Signature.Recv() != nil {
+					if n, isN := deref(f.Signature.Recv().Type()).(*types.Named); isN && n.Obj().Name() == "TagCache" {
+						return "tag cache entry"
+					}
+				}
+			}
+		case *ssa.Call:
+			if isBuiltin(x, "append") {
+				return shared(x.Call.Args[0], depth-1, seen)
+			}
+			f := staticCallee(x)
+			if f == nil {
+				return ""
+			}
+			if f == conv {
+				return "result of convertTags (cached and shared between metrics with the same tags)"
+			}
+			if f.Signature.Recv() != nil {
+				if n, isN := deref(f.Signature.Recv().Type()).(*types.Named); isN && n.Obj().Name() == "TagCache" {
+					return "tag cache entry"
+				}
+			}
+			if c.inModule(f) && f.Blocks != nil {
+				for _, r := range returnsOf(f) {
+					for _, res := range r.Results {
+						if isTagSlice(res.Type()) {
+							// a parameter returned by the callee is judged at this call site's argument
+							if p, isP := canon(stripConv(res)).(*ssa.Parameter); isP {
+								if pi := paramIndex(f, p); pi >= 0 && pi < len(x.Call.Args) {
+									if rr := shared(x.Call.Args[pi], depth-1, seen); rr != "" {
+										return rr
+									}
+								}
+								continue
+							}
+							if rr := shared(res, depth-1, seen); rr != "" {
+								return rr
+							}
+						}
+					}
+				}
+			}
+		}
+		return ""
+	}
+	n := 0
+	for _, fn := range c.funcsOfPkg(pk) {
+		ord := 0
+		instrsOf(fn, func(in ssa.Instruction) {
+			switch x := in.(type) {
+			case *ssa.Call:
+				if !isBuiltin(x, "append") || !isTagSlice(x.Type()) {
+					return
+				}
+				n++
+				ord++
+				key := fmt.Sprintf("%s:append#%d", c.fnKey(fn), ord)
+				if why := shared(x.Call.Args[0], 8, map[ssa.Value]bool{}); why != "" {
+					c.bad(rule, key, x.Pos(), "tags are appended in place to a slice that is not private to this call ("+why+"): when it has spare capacity the append writes into storage that other goroutines size or emit concurrently, so a metric is sized (undercharged) or emitted with another metric's tags", c.describe(x))
+				} else {
+					c.ok(rule, key, x.Pos(), "append base is private (fresh, pooled, or the running result of such appends)")
+				}
+			case *ssa.Store:
+				ia, ok := x.Addr.(*ssa.IndexAddr)
+				if !ok || !isTagSlice(ia.X.Type()) {
+					return
+				}
+				n++
+				ord++
+				key := fmt.Sprintf("%s:element-store#%d", c.fnKey(fn), ord)
+				if why := shared(ia.X, 8, map[ssa.Value]bool{}); why != "" {
+					c.bad(rule, key, x.Pos(), "an element of a shared tag slice ("+why+") is overwritten", c.describe(x))
+				} else {
+					c.ok(rule, key, x.Pos(), "element store into a private slice")
+				}
+			}
+		})
+	}
+	c.floor(rule, n, 4)
 }
